@@ -58,6 +58,7 @@ type Hub struct {
 	hasStarted bool
 
 	muxCon        sync.Mutex
+	muxConSetup   sync.Mutex // the double connection check and the registration of a new connection have to be one step
 	muxConAttempt sync.Mutex
 	muxReg        sync.Mutex
 	muxMdns       sync.Mutex
